@@ -3,11 +3,14 @@ project what visit / traverse / transform / == / hash / copy do to them back
 into the specification's vocabulary.  Mechanism only."""
 import engine
 
-GRAMMAR = '''grammar vg_objs
+GRAMMAR = '''grammar vgobjs.pkg.lang
 class Z {
     pass ""
 }
 class A {
+    x: "a"
+}
+class A2 {
     x: "a"
 }
 class B {
